@@ -552,7 +552,7 @@ def gen():
             stublines.append(f"#[kani::stub({CALLEES[c][0]}, crate::grammar::verif_rules_h::gen::c_{c})]")
         unwind = n + 3
         fk = f"Some(K::{first})" if first else "None"
-        kfexpr = ('kf_region_' + name + '(&p)') if name in HANDWRITTEN_KF else 'false'
+        kfexpr = ('kf_region_' + name + '(&p)') if name in HANDWRITTEN_KF else '0'
         hname = f"c04c02_unit_{name}"
         names.append(hname)
         w("#[kani::proof]")
